@@ -1460,6 +1460,19 @@ class Lowerer:
             if base_t[0] in ('str', 'strview', 'ostream') or (base_t[0] == 'lib'):
                 return self.str_call(n, name, obj, args)
             raise Unsupported('library member %s on %s' % (name, tstr(base_t)))
+        if not args and t[0] == 'f' and name in ('epsilon', 'min', 'max', 'lowest', 'denorm_min'):
+            # std::numeric_limits<T>::... of the floating type returned
+            p, emin, emax = {'float': (24, -126, 127), 'double': (53, -1022, 1023), 'long double': (64, -16382, 16383)}[t[1]]
+            two = Fraction(2)
+            val = {'epsilon': two ** (1 - p), 'min': two ** emin, 'denorm_min': two ** (emin - p + 1),
+                   'max': (two - two ** (1 - p)) * two ** emax, 'lowest': -(two - two ** (1 - p)) * two ** emax}[name]
+            return ('const', t, val, 'std::numeric_limits<%s>::%s()' % (t[1], name))
+        if name in ('max', 'min', 'fmax', 'fmin') and len(args) == 2 and t[0] in ('f', 'i'):
+            a, b = self.rv(args[0]), self.rv(args[1])
+            # std::max(a, b) = (a < b) ? b : a ; std::min(a, b) = (b < a) ? b : a
+            if name in ('max', 'fmax'):
+                return ('cond', t, ('bin', BOOL, '<', a, b), b, a)
+            return ('cond', t, ('bin', BOOL, '<', b, a), b, a)
         if name in self.MATH1 and len(args) == 1:
             a = self.rv(args[0])
             base = {'sqrtf': 'sqrt', 'sqrtl': 'sqrt', 'acosf': 'acos', 'acosl': 'acos', 'fabs': 'abs'}.get(name, name)
